@@ -105,7 +105,9 @@ class FileArray(StorageBase):
         shape_index = 0
         internal_shape_index = 0
         normalized_key = self._normalize_key(key, for_dump=for_dump)
-        for k, m in zip(normalized_key, self.shape_mask):
+        # A key for `dump` names only the external axes (in order).
+        shape_mask = (True,) * len(normalized_key) if for_dump else self.shape_mask
+        for k, m in zip(normalized_key, shape_mask):
             shape = self.shape if m else self.internal_shape
             index = shape_index if m else internal_shape_index
 
